@@ -821,6 +821,7 @@ func (e *Engine) declareWriterTheory() {
 	e.sortDecls = append(e.sortDecls, "(declare-sort BSeq 0)",
 		"(declare-fun cat (BSeq BSeq) BSeq)", "(declare-fun eps () BSeq)",
 		"(declare-fun bseq ((Array Int Int) Int Int) BSeq)",
+		"(declare-fun fhint (Int) Bool)",
 		"(assert (forall ((a BSeq)) (! (= (cat a eps) a) :pattern ((cat a eps)))))",
 		"(assert (forall ((a BSeq)) (! (= (cat eps a) a) :pattern ((cat eps a)))))",
 		"(assert (forall ((a BSeq) (b BSeq) (c BSeq)) (! (= (cat (cat a b) c) (cat a (cat b c))) :pattern ((cat (cat a b) c)))))",
